@@ -35,6 +35,9 @@ claimed = {
  "C09": dict(level="other", text="Bounded symbolic execution of the VM run loop and the interpreter's call path with CallStackMaxSize / StackMaxSize / call limit as solver variables and the recursion depth as a symbolic input; MaxMemorySize is case-split because it sizes an allocation.",
              note="Limits 0..16 (quick) / 0..90 (thorough); recursion depth 0..6 / 0..70; widths 0..40 / 0..80; the enforcement clause allows one scheduling quantum (50 instructions) of overshoot and is only non-vacuous in the thorough bounds; the loop-head resource invariant is checked black-box (1 vs 4 iterations), not on core internals. NewVM's documented panic when the init code is interrupted counts as a refusal, not a crash. Trusted: go/ssa, gosym, z3.",
              technique="bounded symbolic execution (go/ssa) + SMT (z3) with symbolic limits", design="§2 C09"),
+ "C10": dict(level="other", text="Bounded symbolic execution of Core.Run, VM.Wait/SpawnSync and interpreter.Execute with the cancellation instant as a fork variable over every context poll up to P; goroutines/channels/RWMutex run under the engine's cooperative scheduler; non-polling loops surface as exceeded step bounds and are replayed natively under a wall-clock timeout.",
+             note="P = 6 polls quick / 30 thorough; 7 programs; scheduling only at blocking operations (lowest-numbered runnable goroutine first); blocking host builtins (sleep) and wall-clock latency outside. Trusted: go/ssa, gosym (scheduler model), z3.",
+             technique="bounded symbolic execution (go/ssa) with symbolic cancellation instant + cooperative scheduler model", design="§2 C10"),
  "C05": dict(level="other", text="Bounded symbolic execution of lexer (and parser/analyzer as they are added) with Go run-time panics and step-bound overruns as path outcomes; within the stated bounds no input makes the code panic or fail to make progress.",
              note="Lexer step totality/progress on windows of K runes (quick 3 / thorough 5); Parser.Parse over every sequence of <= L tokens with symbolic kinds and an optional (sticky or consumed) lexer error, L = 3 quick / 5 thorough, step bound 300k as termination obligation (token kind formatting stubbed). Analyzer totality on edited programs: see evidence. 64 KiB / depth-1000 inputs are not executed (outside). Trusted: go/ssa, gosym, z3.",
              technique="bounded symbolic execution (go/ssa) + SMT (z3), panic/bound outcomes", design="§2 C05"),
